@@ -845,14 +845,15 @@ Proof.
   - apply lookup_ge_None in E. apply lookup_ge_None. rewrite step_length. exact E.
 Qed.
 
-(* thread 1 sits in the store's loop with a `current` that is no longer the cell *)
-Definition stuck (c : cst) : Prop :=
-  exists todo fs m f st new, c_thr c !! 1 = Some (MkThr todo (LCas fs m f st new)) /\ (st < stamp c f)%N.
+(* thread t sits in the store's loop with a `current` that is no longer the cell *)
+Definition stuck_at (t : nat) (c : cst) : Prop :=
+  exists todo fs m f st new, c_thr c !! t = Some (MkThr todo (LCas fs m f st new)) /\ (st < stamp c f)%N.
+Definition stuck (c : cst) : Prop := stuck_at 1 c.
 
-Lemma stuck_step c t : stuck c -> stuck (step false c t).
+Lemma stuck_at_step t0 c t : stuck_at t0 c -> stuck_at t0 (step false c t).
 Proof.
   intros (todo & fs & m & f & st & new & Hth & Hst).
-  destruct (decide (t = 1)) as [->|Hne].
+  destruct (decide (t = t0)) as [->|Hne].
   - unfold step. rewrite Hth. cbn [t_loc t_todo].
     rewrite bool_decide_false by lia.
     exists todo, fs, m, f, st, (wdm (c_rib c)). cbn [c_thr]. rewrite stamp_keep. split; [|exact Hst].
@@ -861,11 +862,65 @@ Proof.
     pose proof (stamp_mono false c t f). lia.
 Qed.
 
+Lemma stuck_at_run t0 s : forall c, stuck_at t0 c -> stuck_at t0 (run false c s).
+Proof. induction s as [|t s IH]; intros c Hc; [exact Hc|]. cbn. apply IH, stuck_at_step, Hc. Qed.
+
+Lemma stuck_step c t : stuck c -> stuck (step false c t).
+Proof. apply stuck_at_step. Qed.
+
 Lemma stuck_run s : forall c, stuck c -> stuck (run false c s).
-Proof. induction s as [|t s IH]; intros c Hc; [exact Hc|]. cbn. apply IH, stuck_step, Hc. Qed.
+Proof. apply stuck_at_run. Qed.
+
+Lemma stuck_at_not_done t c : stuck_at t c -> done_at c t = false /\ all_done c = false.
+Proof.
+  intros (todo & fs & m & f & st & new & Hth & _). split.
+  - unfold done_at. rewrite Hth. unfold thr_done. cbn. destruct todo; reflexivity.
+  - destruct (all_done c) eqn:Hd; [|reflexivity]. exfalso.
+    pose proof (all_done_at _ _ _ Hd Hth) as H. unfold thr_done in H. cbn in H. destruct todo; discriminate.
+Qed.
 
 Lemma stuck_not_done c : stuck c -> done_at c 1 = false.
-Proof. intros (todo & fs & m & f & st & new & Hth & _). unfold done_at. rewrite Hth. unfold thr_done. cbn. destruct todo; reflexivity. Qed.
+Proof. intros H. apply (stuck_at_not_done 1 c H). Qed.
+
+(* a failed compare-and-swap leaves its thread stuck *)
+Lemma fail_makes_stuck ser c t : snap_ok c -> c_fail (step ser c t) <> c_fail c -> stuck_at t (step ser c t).
+Proof.
+  intros Hok Hf. unfold step in *.
+  destruct (c_thr c !! t) as [th|] eqn:Eth; [|contradiction].
+  destruct (t_loc th) as [|fs m|fs m f st new] eqn:Eloc.
+  - destruct (t_todo th) as [|[p|fs m] rest]; [contradiction|cbn in Hf; contradiction|].
+    destruct ser; [destruct (c_lock c)|]; cbn in Hf; contradiction.
+  - destruct fs; cbn in Hf; contradiction.
+  - destruct (Hok _ _ _ _ _ _ _ Eth Eloc) as [Hle _].
+    destruct (bool_decide (stamp c f = st)) eqn:Hb; [cbn in Hf; contradiction|].
+    apply bool_decide_eq_false in Hb.
+    exists (t_todo th), fs, m, f, st, (wdm (c_rib c)). cbn [c_thr]. rewrite stamp_keep. split; [|lia].
+    apply list_lookup_insert. eapply lookup_lt_Some, Eth.
+Qed.
+
+Lemma fail_stuck_run s : forall c, snap_ok c -> (c_fail c <> 0%N -> exists t, stuck_at t c) ->
+  c_fail (run false c s) <> 0%N -> exists t, stuck_at t (run false c s).
+Proof.
+  induction s as [|t s IH]; intros c Hok Hinv Hf; [exact (Hinv Hf)|].
+  change (run false c (t :: s)) with (run false (step false c t) s) in *.
+  apply IH; [apply snap_ok_step, Hok| |exact Hf].
+  intros Hf'. destruct (N.eq_dec (c_fail (step false c t)) (c_fail c)) as [Heq|Hne].
+  - rewrite Heq in Hf'. destruct (Hinv Hf') as (t0 & Hst). exists t0. apply stuck_at_step, Hst.
+  - exists t. apply fail_makes_stuck; assumption.
+Qed.
+
+(* MAIN 5a (the code as it was, in general): whatever the writers and the
+   schedule, ONE failed compare-and-swap is fatal - from then on some writer
+   never finishes, under every continuation *)
+Theorem cas_failure_is_fatal progs s s' :
+  c_fail (run false (init progs) s) <> 0%N ->
+  all_done (run false (init progs) (s ++ s')) = false.
+Proof.
+  intros Hf. unfold run. rewrite fold_left_app. fold (run false (init progs) s).
+  fold (run false (run false (init progs) s) s').
+  destruct (fail_stuck_run s (init progs) (snap_ok_init progs)) as (t & Hst); [intros H; exfalso; apply H; reflexivity|exact Hf|].
+  apply (stuck_at_not_done t). apply stuck_at_run, Hst.
+Qed.
 
 Lemma livelock_prefix_stuck : stuck (run false (init livelock_progs) livelock_prefix).
 Proof.
